@@ -49,9 +49,12 @@ type Case struct {
 	// Stats: a stats() node hangs on the source node: a second source of the task that runs on a
 	// timer of its own and ends only when the task stops it
 	Stats bool `json:"stats,omitempty"`
+	// Watcher: a goroutine waits in ExecutingTask.Wait() from the start of the task, as
+	// services/task_store does for every enabled task (it logs the task's end)
+	Watcher bool `json:"watcher,omitempty"`
 }
 
-const rule = "rapid: pipelines with 1-2 forked outputs (influxDBOut buffer/flushInterval, alert->topic handler, kapacitorLoopback->second task, log sink) x N in {1,10,1001,2500} x gate state of each sink (open / blocked until the stop is requested) x stop kind (StopTask, DeleteTask, TaskMaster.Close) x failing-node variant; " +
+const rule = "rapid: pipelines with 1-2 forked outputs (influxDBOut buffer/flushInterval, alert->topic handler, kapacitorLoopback->second task, log sink) x N in {1,10,1001,2500} x gate state of each sink (open / blocked until the stop is requested) x stop kind (StopTask, DeleteTask, TaskMaster.Close) x failing-node variant x with/without a goroutine that waits in ExecutingTask.Wait() from the start (as the task store does); " +
 	"oracle: every acknowledged point reaches every output, the stop returns, no goroutine stays behind; non-trivial = a sink was blocked at the moment of the stop (points buffered inside the task) or N exceeds one edge buffer; distinct by case hash"
 
 // VERIF_C07_NO_EXCLUDE=1 generates the input classes of the known findings again.
@@ -66,6 +69,7 @@ func gen(r *kit.Rec) func(t *rapid.T) Case {
 		c.DelayUS = rapid.SampledFrom([]int{0, 200, 5000, 30000}).Draw(t, "delay")
 		c.FailNode = rapid.IntRange(0, 7).Draw(t, "failnode") == 0
 		c.Stats = rapid.IntRange(0, 3).Draw(t, "stats") == 0
+		c.Watcher = rapid.Bool().Draw(t, "watcher")
 		no := rapid.IntRange(1, 2).Draw(t, "nouts")
 		for i := 0; i < no; i++ {
 			o := Out{Kind: rapid.SampledFrom([]string{"influx", "influx", "alert", "alertlog", "log", "loopback", "logloopback"}).Draw(t, "kind"), PassThru: rapid.IntRange(0, 1).Draw(t, "pass")}
@@ -366,7 +370,10 @@ func run(c Case, cc *kit.Case) {
 		cc.Fail("harness/script-rejected", "script rejected: %v\n%s", err, main)
 		return
 	}
-	_ = et
+	if c.Watcher {
+		cc.Label("waiter-in-et.Wait-from-the-start")
+		go func() { _ = et.Wait() }()
+	}
 
 	// accepted points: every write is acknowledged before the stop is requested
 	wrote := make(chan error, 1)
